@@ -666,8 +666,9 @@ static void f_exec_common(Ctx& c, const Op& op, int idx, OpResult& r, Obj* o, do
       r.vclass = "history-offset";
       r.detail = "used object: " + dump_off(a, outmode) + "\nfresh object: " + dump_off(b, outmode);
       r.sig = r.shape;
-    } else if (alone && outmode == 0) {
-      alone_check(*o, delta, a.sol, r);
+    } else if (alone) {
+      // the PolyTree overload must hold the same far-apart results (flattened) as the Paths overload
+      if (outmode == 0) alone_check(*o, delta, a.sol, r); else alone_check(*o, delta, PolyTreeToPaths64(a.tree), r);
       if (r.compared) r.shape += "|alone";
     }
   }
